@@ -5,7 +5,7 @@ EXTENDS KdcProxy, Json, TLCExt, IOUtils
 TTraceFile == IF "TRACE" \in DOMAIN IOEnv THEN IOEnv.TRACE ELSE "trace.ndjson"
 TraceLog == ndJsonDeserialize(TTraceFile)
 VARIABLES l, viol, cover
-tvars == <<req, beh, got, answered, clock, resp, l, viol, cover>>
+tvars == <<req, foreign, beh, got, answered, clock, resp, l, viol, cover>>
 Line == TraceLog[l]
 Range(s) == {s[i] : i \in 1..Len(s)}
 Bound == 7500   \* ms: the proxy's 5 s KDC timeout plus slack
@@ -19,17 +19,19 @@ Bad(e) ==
   \cup (IF want # 0 /\ e.status # -1 /\ e.status # want THEN {"G_C20_RejectStatus"} ELSE {})
   \cup (IF want # 0 /\ e.anySent THEN {"G_C20_RejectedUntouched"} ELSE {})
   \cup (IF ~e.sentOK THEN {"G_C20_OnlyTheMessageIsSent"} ELSE {})
+  \* whatever the proxy served before: nothing of this request goes to the KDC of another realm
+  \cup (IF e.sentForeign THEN {"G_C20_OnlyToTheRealmsKdcs"} ELSE {})
   \cup (IF e.status = 200 /\ ~e.replyOK THEN {"G_C20_ReplyIsTheKdcReply"} ELSE {})
   \cup (IF want = 0 /\ known /\ Replies(e) /\ e.status # -1 /\ e.status # 200 THEN {"G_C20_ReachableKdcAnswered"} ELSE {})
   \cup (IF want = 0 /\ (~known \/ ~Replies(e)) /\ e.status = 200 /\ ~e.partialOnly THEN {"G_C20_NoReplyNoSuccess"} ELSE {})
   \cup (IF e.panicked THEN {"G_C10_NoPanic"} ELSE {})
 TInit == /\ l = 1 /\ viol = {} /\ cover = {}
-         /\ req = [method |-> "POST", len |-> "ok", body |-> "valid", realm |-> "default", size |-> "s1400"]
+         /\ req = [method |-> "POST", len |-> "ok", body |-> "valid", realm |-> "default", size |-> "s1400", after |-> "nothing"] /\ foreign = "nothing"
          /\ beh = [k \in KDCs |-> "reply"] /\ got = [k \in KDCs |-> "nothing"] /\ answered = <<>> /\ clock = 0 /\ resp = NoResp
 TNext == /\ l <= Len(TraceLog)
          /\ viol' = viol \cup {<<l, g, Line.cls, Line.target>> : g \in Bad(Line)}
-         /\ cover' = cover \cup {<<Line.cls, Line.target, Line.status>>, <<"size", Line.sizecls, Line.status>>}
-         /\ l' = l + 1 /\ UNCHANGED <<req, beh, got, answered, clock, resp>>
+         /\ cover' = cover \cup {<<Line.cls, Line.target, Line.status>>, <<"size", Line.sizecls, Line.status>>, <<"after", Line.after, Line.status>>}
+         /\ l' = l + 1 /\ UNCHANGED <<req, foreign, beh, got, answered, clock, resp>>
 TSpec == TInit /\ [][TNext]_tvars
 AtEnd == l = Len(TraceLog) + 1 =>
            PrintT(<<"VERIF_RESULT", ToJson([viol |-> viol, cover |-> cover, lines |-> Len(TraceLog)])>>)
